@@ -62,7 +62,7 @@ ASSUMPTIONS = [
 ]
 
 # non-contiguous, partly negative integers (the property quantifies over integer labels)
-INT_POOL = [-7, -3, 0, 1, 2, 5, 7, 10, 11, 23, 40, 41, 100]
+INT_POOL = [-7, -3, -2, -1, 0, 1, 2, 5, 7, 10, 11, 23, 40, 41, 100]   # -1 and -2 hash alike in CPython
 
 # --------------------------------------------------------------------------
 # oracle: canonical forms, class table, brute-force census
